@@ -194,8 +194,8 @@ theorem present_data_num (ty : NumTy) (fn : Bytes) (idx op mop : Nat) (val mask 
     raw-data *value* buffer comes back as a NULL reference, which `Matches` treats identically) and
     decides identically on every Message and node — for every well-formed filter tree of all 19
     classes, nested to any depth.  `wf`: operands of the operand width, 32-bit indices / counts /
-    type codes, 8-bit operator codes, and no zero-length raw-data *default* (finding
-    `C14-rawdef-empty`: `SaveToArchive` drops it and the restored filter decides differently).
+    type codes, 8-bit operator codes.  (A zero-length raw-data *default* is archived and restored like any other:
+    regression for the former finding `C14-rawdef-empty`.)
     `fromArchive` supplies the archive's own nesting depth + 1 as fuel; `fdepth_le` shows that is enough. -/
 theorem archive_roundtrip (f : Filter) (h : wf f) :
     fromArchive (toArchive f) = some (norm f) ∧ ∀ m nd, eval sm (norm f) m nd = eval sm f m nd :=
@@ -343,6 +343,10 @@ example : wf sampleAll := by
   simp [sampleAll, wf, wfKids, NumTy.size, Filter.U32, rectDefault, tcAny, tcInt32, tcRaw, muscleNoLimit,
     nopNe, nopGe, nopEq, nopGt, mopXor, mopNone, mopAnd, sopContains, sopEq, ropLt, ropSubsetOf]
 example : roundTripsTo sampleAll = true := by decide
+-- a zero-length assumed default survives archiving and is what a Message without the field is compared with
+def rawEmptyDefault : Filter := .raw [102] 0 ropLt tcRaw (some [97, 98]) (some [])
+example : roundTripsTo rawEmptyDefault = true ∧ feq (norm rawEmptyDefault) rawEmptyDefault = true ∧
+          eval (fun _ _ _ => false) rawEmptyDefault (.mk 1 []) none = true := by decide
 example : fromArchive (.mk qfInt32 [(kFn, .strs .inl [[97]])]) = none := by decide     -- "val" missing: rejected
 -- a Point with a NaN component is both `<=` and `>=` (1.0, NaN) yet not `==`
 example : numCmp .pt nopLe [0,0,128,63, 0,0,192,127] [0,0,128,63, 0,0,128,63] = true ∧
